@@ -13,6 +13,17 @@ structure GoodOpd (g : Bool) (o : Opd) : Prop where
   parse : ∀ t, Rem t → ∀ f, o.cost ≤ f → pLeaf g f (o.text ++ t) = .ok o.leaf t
   small : o.cost ≤ 4 * o.text.length
 
+/-- `leaf` followed by the optional boost, as `occur_leaf` runs them -/
+def pLeafB (g : Bool) (f : Nat) (s : Str) : R (Ast CLeaf) :=
+  (pLeaf g f s).bind fun a r => .ok (applyBoost a (boost r).1) (boost r).2
+
+/-- what the list parser needs to know about an item of a list: an operand with its optional boost -/
+structure GoodItem (g : Bool) (o : Opd) : Prop where
+  head : ∃ c r, o.text = c :: r ∧ isNomSpace c = false ∧ c ≠ ':' ∧ c ≠ '+' ∧ c ≠ '-' ∧ c ≠ ')'
+  noOp : ∀ t, Rem t → binaryOperand (o.text ++ t) = (none, o.text ++ t)
+  parse : ∀ t, Rem t → ∀ f, o.cost ≤ f → pLeafB g f (o.text ++ t) = .ok o.leaf t
+  small : o.cost ≤ 4 * o.text.length
+
 /-- what may follow an operand list: nothing, or the `)` of the enclosing group -/
 def EndTail (tail : Str) : Prop := tail = [] ∨ ∃ x, tail = ')' :: x
 
@@ -55,7 +66,7 @@ theorem rem_spaces_tail (k : Nat) (tail : Str) (h : EndTail tail) : Rem (spaces 
     · simp at e
 
 /-- the first character of an operand's text is not a blank and not a colon -/
-theorem itemText_head (g : Bool) (it : PItem) (hw : GoodOpd g it.opd) :
+theorem itemText_head (g : Bool) (it : PItem) (hw : GoodItem g it.opd) :
     ∃ c r, itemText it = c :: r ∧ isNomSpace c = false ∧ c ≠ ':' := by
   obtain ⟨c, r, hcr, hsp, hcol, _⟩ := hw.head
   unfold itemText
@@ -74,7 +85,7 @@ theorem itemText_head (g : Bool) (it : PItem) (hw : GoodOpd g it.opd) :
       | mustNot => exact ⟨'-', it.opd.text, by simp [opText, markText], by decide, by decide⟩
 
 theorem skip0_printRest_cons (g : Bool) (it : PItem) (more : List PItem) (k : Nat) (tail : Str)
-    (hw : GoodOpd g it.opd) :
+    (hw : GoodItem g it.opd) :
     skip0 (printRest (it :: more) k tail) = itemText it ++ printRest more k tail := by
   obtain ⟨c, r, hcr, hsp, _⟩ := itemText_head g it hw
   have e : skip0 (' ' :: (spaces it.sp1 ++ (itemText it ++ printRest more k tail)))
@@ -90,7 +101,7 @@ theorem skip0_printRest_cons (g : Bool) (it : PItem) (more : List PItem) (k : Na
 
 /-- what follows an operand in a printed operand list never makes it a field name -/
 theorem rem_printRest (g : Bool) (more : List PItem) (k : Nat) (tail : Str) (ht : EndTail tail)
-    (hw : ∀ it ∈ more, GoodOpd g it.opd) : Rem (printRest more k tail) := by
+    (hw : ∀ it ∈ more, GoodItem g it.opd) : Rem (printRest more k tail) := by
   cases more with
   | nil => exact rem_spaces_tail k tail ht
   | cons it rest =>
@@ -124,8 +135,26 @@ theorem boost_of_rem (t : Str) (ht : Rem t) : boost t = (none, t) := by
     · rename_i heq; exact absurd (List.cons.inj heq).1 (by decide)
     · rfl
 
+/-- an operand without a boost is an item -/
+theorem GoodOpd.toItem {g : Bool} {o : Opd} (h : GoodOpd g o) : GoodItem g o :=
+  ⟨h.head, h.noOp, fun t ht f hf => by
+    simp [pLeafB, h.parse t ht f hf, R.bind, boost_of_rem t ht, applyBoost], h.small⟩
+
+theorem pOccurLeaf_eq (g : Bool) (f : Nat) (s : Str) :
+    pOccurLeaf g (f + 1) s
+      = (pLeafB g f (occurSymbol s).2).bind fun a r => .ok ((occurSymbol s).1, a) r := by
+  unfold pOccurLeaf pLeafB
+  cases occurSymbol s with
+  | mk occ s1 =>
+    simp only
+    cases pLeaf g f s1 with
+    | ok a r =>
+      simp only [R.bind]
+    | fail => rfl
+    | panic => rfl
+
 /-- an operand with its occur marker -/
-theorem pOccurLeaf_good (g : Bool) (o : Opd) (ho : GoodOpd g o) (occ : Option Occur) (t : Str)
+theorem pOccurLeaf_good (g : Bool) (o : Opd) (ho : GoodItem g o) (occ : Option Occur) (t : Str)
     (ht : Rem t) (f : Nat) (hf : o.cost + 1 ≤ f) :
     pOccurLeaf g f (markText occ ++ (o.text ++ t)) = .ok (normOcc occ, o.leaf) t := by
   obtain ⟨f', rfl⟩ : ∃ f', f = f' + 1 := ⟨f - 1, by omega⟩
@@ -139,12 +168,12 @@ theorem pOccurLeaf_good (g : Bool) (o : Opd) (ho : GoodOpd g o) (occ : Option Oc
     · rename_i heq; exact absurd (List.cons.inj heq).1 hp
     · rfl
   have hl := ho.parse t ht f' (by omega)
-  unfold pOccurLeaf
+  rw [pOccurLeaf_eq]
   match occ with
-  | some .must => simp [markText, normOcc, occurSymbol, hl, R.bind, boost_of_rem t ht, applyBoost]
-  | some .mustNot => simp [markText, normOcc, occurSymbol, hl, R.bind, boost_of_rem t ht, applyBoost]
-  | some .should => simp [markText, normOcc, ho', hl, R.bind, boost_of_rem t ht, applyBoost]
-  | none => simp [markText, normOcc, ho', hl, R.bind, boost_of_rem t ht, applyBoost]
+  | some .must => simp [markText, normOcc, occurSymbol, hl, R.bind]
+  | some .mustNot => simp [markText, normOcc, occurSymbol, hl, R.bind]
+  | some .should => simp [markText, normOcc, ho', hl, R.bind]
+  | none => simp [markText, normOcc, ho', hl, R.bind]
 
 theorem plainLiteral_nil (g : Bool) : plainLiteral g [] = .fail := by rfl
 
@@ -214,7 +243,7 @@ theorem pOperands_end (g : Bool) (f : Nat) (tail : Str) (h : EndTail tail) :
 
 /-- the operand texts after the first one parse back to their items -/
 theorem pOperands_print (g : Bool) (more : List PItem) (k : Nat) (tail : Str) (ht : EndTail tail)
-    (hw : ∀ it ∈ more, GoodOpd g it.opd) :
+    (hw : ∀ it ∈ more, GoodItem g it.opd) :
     ∀ f, needRest more ≤ f →
       pOperands g f (skip0 (printRest more k tail)) = .ok (more.map itemOf) tail := by
   induction more with
@@ -226,7 +255,7 @@ theorem pOperands_print (g : Bool) (more : List PItem) (k : Nat) (tail : Str) (h
   | cons it rest ih =>
     intro f hf
     have hwi := hw it (by simp)
-    have hwr : ∀ x ∈ rest, GoodOpd g x.opd := fun x hx => hw x (List.mem_cons_of_mem _ hx)
+    have hwr : ∀ x ∈ rest, GoodItem g x.opd := fun x hx => hw x (List.mem_cons_of_mem _ hx)
     simp only [needRest] at hf
     obtain ⟨f', rfl⟩ : ∃ f', f = f' + 1 := ⟨f - 1, by omega⟩
     have hn3 := needRest_ge rest
@@ -279,7 +308,7 @@ theorem skip1_space (t : Str) : skip1 (' ' :: t) = some (skip0 (' ' :: t)) := by
 theorem skip1_close (x : Str) : skip1 (')' :: x) = none := by
   simp [skip1, isNomSpace]
 
-theorem skip0_printList (g : Bool) (lead : Nat) (occ : Option Occur) (o : Opd) (ho : GoodOpd g o) (t : Str) :
+theorem skip0_printList (g : Bool) (lead : Nat) (occ : Option Occur) (o : Opd) (ho : GoodItem g o) (t : Str) :
     skip0 (spaces lead ++ (markText occ ++ (o.text ++ t))) = markText occ ++ (o.text ++ t) := by
   obtain ⟨c, r, hcr, hsp, _⟩ := ho.head
   apply skip0_spaces
@@ -309,7 +338,7 @@ theorem listTree_eq (occ : Option Occur) (o : Opd) (more : List PItem) :
 /-- **print/parse for operand lists**: the printed list parses to the fold of its items and
     leaves exactly `tail` -/
 theorem pAst_print (g : Bool) (lead : Nat) (occ : Option Occur) (o : Opd) (more : List PItem) (k : Nat)
-    (tail : Str) (ht : EndTail tail) (ho : GoodOpd g o) (hm : ∀ it ∈ more, GoodOpd g it.opd)
+    (tail : Str) (ht : EndTail tail) (ho : GoodItem g o) (hm : ∀ it ∈ more, GoodItem g it.opd)
     (f : Nat) (hf : o.cost + needRest more + 2 ≤ f) :
     pAst g f (printList lead occ o more k tail) = .ok (listTree occ o more) tail := by
   have hneed : 3 ≤ needRest more := needRest_ge more
